@@ -130,12 +130,13 @@ def next_req(k: int, tail: bytes, cut: int) -> bool:
     """
     pre: 0 <= k <= 4
     pre: len(tail) <= CASE["tail"]
-    pre: 0 <= cut <= 14 + len(tail)
+    pre: 0 <= cut <= 25 + len(tail)
     post: __return__
     """
     k = pick(k, 0, 4)
-    stream = b"2\r\nab\r\n1\r\nc\r\n0\r\n\r\n" + tail
-    cut = pick(cut, 0, 19 + CASE["tail"])
+    trailer = b"T: v\r\n" if CASE.get("trailers") else b""
+    stream = b"2\r\nab\r\n1\r\nc\r\n0\r\n" + trailer + b"\r\n" + tail
+    cut = pick(cut, 0, 19 + len(trailer) + CASE["tail"])
     chunks = [c for c in (stream[:cut], stream[cut:]) if len(c)]
     u = IterUnreader(chunks)
     r = mk_req([("TRANSFER-ENCODING", "chunked")], (1, 1))
@@ -250,8 +251,10 @@ OBLIGATIONS = [
        cases=[{"len": L, "ops": [a, b]} for L in (1023, 1024, 1025, 1026) for a in ("read", "readline") for b in ("read", "readline")],
        timeout=900, bound="concrete bodies of 1023..1026 bytes, 2 calls of read/readline with sizes from {0,1,2,1022..1027,"
                           "5000,-1}, network cut at 0/1/1024/len-1"),
-    Ob("C07.next_req", "next_req", cases={"quick": [{"tail": 2}], "thorough": [{"tail": 3}]}, timeout=900,
-       bound="chunked body (2 chunks) read k<=4 bytes, then drained; following bytes: <=2 (thorough 3) arbitrary; one cut anywhere"),
+    Ob("C07.next_req", "next_req", cases={"quick": [{"tail": 2}, {"tail": 2, "trailers": True}],
+                                          "thorough": [{"tail": 3}, {"tail": 3, "trailers": True}]}, timeout=900,
+       bound="chunked body (2 chunks), with and without a trailer field, read k<=4 bytes, then drained; following bytes: <=2 "
+             "(thorough 3) arbitrary; one cut anywhere"),
     Ob("C07.pipeline", "pipeline", timeout=1200,
        bound="real RequestParser: first request with a concrete body of {0,5,1024,8192,65536,65537,70000,200000} bytes "
              "(Content-Length or chunked), application reads {0,3,half,all}, stream fed whole / in 8192- / 1000-byte reads; "
